@@ -83,16 +83,58 @@ def _run_variant(args):
         shutil.rmtree(tmp, ignore_errors=True)
 
 
+def _run_seeded(args):
+    """Apply one kept seeded change (an independent author's patch) to a scratch
+    copy of the current tree and expect the property's check to report it."""
+    import glob
+    import json
+    import subprocess
+    prop, root, d, base = args
+    from engine.loader import AnalysisError
+    name = os.path.basename(d)
+    meta = json.load(open(os.path.join(d, "meta.json")))
+    tmp = tempfile.mkdtemp(prefix="verif_seeded_")
+    try:
+        _copy_tree(root, tmp)
+        r = subprocess.run(["git", "apply", "--whitespace=nowarn", os.path.join(d, "patch.diff")], cwd=tmp, capture_output=True, text=True)
+        if r.returncode != 0:
+            return dict(name="seeded:" + name, kind="seeded", rule=None, verdict="stale", detail="patch does not apply to the current tree")
+        try:
+            keys = _violation_keys(prop, tmp)
+            err = None
+        except AnalysisError as e:
+            keys, err = [], str(e)
+        except Exception as e:
+            keys, err = [], "internal error: %r" % (e,)
+        new = [k for k in keys if tuple(k) not in {tuple(b) for b in base}]
+        expected_fail_closed = str(meta.get("current", "")).startswith("fail-closed")
+        expected_missed = str(meta.get("current", "")).startswith("missed")
+        if new:
+            return dict(name="seeded:" + name, kind="seeded", rule=new[0][0], verdict="ok", detail="reported: %s" % (new[0][1],))
+        if err:
+            return dict(name="seeded:" + name, kind="seeded", rule=None, verdict="ok-fail-closed", detail=err[:160])
+        if expected_missed:
+            return dict(name="seeded:" + name, kind="seeded", rule=None, verdict="known-miss", detail="recorded as not decided by this property's check (see meta.json)")
+        return dict(name="seeded:" + name, kind="seeded", rule=None, verdict="MISSED", detail="a kept seeded change is no longer reported")
+    finally:
+        shutil.rmtree(tmp, ignore_errors=True)
+
+
 def run_selftest(prop, root, seed=0, jobs=None):
     from selftest.variants import VARIANTS
     vs = [v for v in VARIANTS if v["prop"] == prop]
     t0 = time.time()
     base = _violation_keys(prop, root)
-    jobs = jobs or min(16, max(1, len(vs)))
     results = []
-    if vs:
+    import glob
+    import json
+    seeded = [d for d in sorted(glob.glob(os.path.join(VERIF, "seeded", "*"))) if os.path.exists(os.path.join(d, "meta.json"))
+              and json.load(open(os.path.join(d, "meta.json"))).get("property") == prop]
+    jobs = jobs or min(16, max(1, len(vs) + len(seeded)))
+    if vs or seeded:
         with ProcessPoolExecutor(max_workers=jobs) as ex:
             results = list(ex.map(_run_variant, [(prop, root, v, base) for v in vs]))
+            results += list(ex.map(_run_seeded, [(prop, root, d, base) for d in seeded]))
     failed = ["%s: %s (%s)" % (r["name"], r["verdict"], r["detail"]) for r in results
               if r["verdict"] in ("MISSED", "FALSE-ALARM", "FALSE-ERROR", "broken-variant")]
     return {
@@ -101,6 +143,8 @@ def run_selftest(prop, root, seed=0, jobs=None):
         "fire_detected": sum(1 for r in results if r["kind"] == "fire" and r["verdict"] in ("ok", "ok-fail-closed")),
         "benign_total": sum(1 for r in results if r["kind"] == "benign" and r["verdict"] != "stale"),
         "benign_silent": sum(1 for r in results if r["kind"] == "benign" and r["verdict"] == "ok"),
+        "seeded_total": sum(1 for r in results if r["kind"] == "seeded" and r["verdict"] != "stale"),
+        "seeded_detected": sum(1 for r in results if r["kind"] == "seeded" and r["verdict"] in ("ok", "ok-fail-closed")),
         "stale": [r["name"] for r in results if r["verdict"] == "stale"],
         "failed": failed,
         "wall_s": round(time.time() - t0, 2),
@@ -113,7 +157,8 @@ if __name__ == "__main__":
     rc = 0
     for p in props:
         r = run_selftest(p, os.environ.get("VERIF_REPO", "/repo"))
-        print("%s: fire %d/%d, benign %d/%d, stale %d, %.1fs" % (p, r["fire_detected"], r["fire_total"], r["benign_silent"], r["benign_total"], len(r["stale"]), r["wall_s"]))
+        print("%s: fire %d/%d, benign %d/%d, seeded %d/%d, stale %d, %.1fs" % (p, r["fire_detected"], r["fire_total"], r["benign_silent"], r["benign_total"],
+                                                                               r["seeded_detected"], r["seeded_total"], len(r["stale"]), r["wall_s"]))
         for x in r["variants"]:
             if x["verdict"] not in ("ok",):
                 print("   %-44s %-14s %s" % (x["name"], x["verdict"], x["detail"][:150]))
